@@ -62,6 +62,9 @@ typedef struct {
   int far;         /* the label the branch under test jumps to is more than 128 bytes away: the rel32 forms of the
                       branch patterns (filler: a chain of add/xor on block + 240, executed on one of the two paths) */
   int press;       /* >0: register pressure, see build_case */
+  char hr[8][8];   /* hr=<reg>,<reg>,...: the address registers of the memory operands (x base, x index, y base, ...) are
+                      variables tied to these hard registers (r12: SIB needed, r13: no mod=00 form, ...) */
+  int nhr;
   uint64_t pmask;  /* defined bits of the result, for the comparison of the copies */
   opnd_t dst, x, y;
 } case_t;
@@ -126,6 +129,15 @@ static int parse_case (char *line, case_t *c) {
     else if (strncmp (tok, "bover=", 6) == 0) c->bover = atoi (tok + 6);
     else if (strncmp (tok, "press=", 6) == 0) c->press = atoi (tok + 6);
     else if (strncmp (tok, "far=", 4) == 0) c->far = atoi (tok + 4);
+    else if (strncmp (tok, "hr=", 3) == 0) {
+      const char *q = tok + 3;
+      while (*q != 0 && c->nhr < 8) {
+        int n = 0;
+        while (*q != 0 && *q != ',' && n < 7) c->hr[c->nhr][n++] = *q++;
+        c->hr[c->nhr++][n] = 0;
+        if (*q == ',') q++;
+      }
+    }
     else if (strncmp (tok, "pmask=", 6) == 0) c->pmask = (uint64_t) parse_hex (tok + 6);
     else return 0;
   }
@@ -162,6 +174,8 @@ typedef struct {
   MIR_func_t f;
   MIR_reg_t p;
   int ntemp;
+  case_t *c; /* for the hard registers of address variables */
+  int hrk;
 } fb_t;
 
 static MIR_reg_t new_reg (fb_t *b, MIR_type_t t, const char *pfx) {
@@ -172,6 +186,14 @@ static MIR_reg_t new_reg (fb_t *b, MIR_type_t t, const char *pfx) {
 
 static void app (fb_t *b, MIR_insn_t insn) { MIR_append_insn (b->ctx, b->func, insn); }
 
+/* an address register: tied to the next hard register of the case's hr= list, if any */
+static MIR_reg_t addr_reg (fb_t *b, const char *pfx) {
+  if (b->c == NULL || b->hrk >= b->c->nhr) return new_reg (b, MIR_T_I64, pfx);
+  char name[40];
+  snprintf (name, sizeof (name), "%s%d", pfx, b->ntemp++);
+  return MIR_new_global_func_reg (b->ctx, b->f, MIR_T_I64, name, b->c->hr[b->hrk++]);
+}
+
 static MIR_op_t blk (fb_t *b, MIR_type_t t, int off) { return MIR_new_mem_op (b->ctx, t, off, b->p, 0, 1); }
 
 /* memory operand for slot (0 = x, 1 = y, 2 = dst); address registers are loaded from the block */
@@ -180,11 +202,11 @@ static MIR_op_t mem_operand (fb_t *b, opnd_t *o, int slot) {
   MIR_reg_t base = 0, index = 0;
   int has_b = strchr (o->form, 'b') != NULL, has_i = strchr (o->form, 'i') != NULL, has_d = strchr (o->form, 'd') != NULL;
   if (has_b) {
-    base = new_reg (b, MIR_T_I64, "base");
+    base = addr_reg (b, "base");
     app (b, MIR_new_insn (ctx, MIR_MOV, MIR_new_reg_op (ctx, base), blk (b, MIR_T_I64, 32 + 16 * slot)));
   }
   if (has_i) {
-    index = new_reg (b, MIR_T_I64, "index");
+    index = addr_reg (b, "index");
     app (b, MIR_new_insn (ctx, MIR_MOV, MIR_new_reg_op (ctx, index), blk (b, MIR_T_I64, 40 + 16 * slot)));
   }
   return MIR_new_mem_op (ctx, type_of_name (o->ty), has_d ? o->disp : 0, base, index, has_i ? o->scale : 1);
@@ -271,6 +293,8 @@ static MIR_item_t build_special (MIR_context_t ctx, case_t *c, const char *name)
   var.name = "p";
   b.ctx = ctx;
   b.ntemp = 0;
+  b.c = NULL;
+  b.hrk = 0;
   b.func = MIR_new_func_arr (ctx, name, 1, &res_type, 1, &var);
   b.f = b.func->u.func;
   b.p = MIR_reg (ctx, "p", b.f);
@@ -422,6 +446,8 @@ static MIR_item_t build_case (MIR_context_t ctx, case_t *c, const char *name) {
   var.name = "p";
   b.ctx = ctx;
   b.ntemp = 0;
+  b.c = c;
+  b.hrk = 0;
   b.func = MIR_new_func_arr (ctx, name, 1, &res_type, 1, &var);
   b.f = b.func->u.func;
   b.p = MIR_reg (ctx, "p", b.f);
@@ -736,6 +762,18 @@ static int native_ld (case_t *c, int64_t *ret) {
   return 1;
 }
 
+/* generated code is entered through a trampoline that saves every callee-saved register: variables tied to hard registers
+   (hr=) are, like GNU C global register variables, not saved by the function that uses them */
+__asm__ (".text\n"
+         ".globl c02_call_saving\n"
+         ".type c02_call_saving, @function\n"
+         "c02_call_saving:\n"
+         "  push %rbx\n  push %rbp\n  push %r12\n  push %r13\n  push %r14\n  push %r15\n  sub $8, %rsp\n"
+         "  mov %rdi, %rax\n  mov %rsi, %rdi\n  call *%rax\n"
+         "  add $8, %rsp\n  pop %r15\n  pop %r14\n  pop %r13\n  pop %r12\n  pop %rbp\n  pop %rbx\n  ret\n"
+         ".size c02_call_saving, .-c02_call_saving\n");
+extern int64_t c02_call_saving (void *fun, int64_t arg);
+
 #define NENG 5
 static MIR_context_t ctxs[NENG];
 static const char *eng_names[NENG] = {"interp", "gen0", "gen1", "gen2", "gen3"};
@@ -796,8 +834,8 @@ static int run_mode (void) {
         ret = res.i;
       } else {
         MIR_link (ctx, MIR_set_gen_interface, NULL);
-        int64_t (*fun) (int64_t) = (int64_t (*) (int64_t)) MIR_gen (ctx, func);
-        ret = fun ((int64_t) (intptr_t) block);
+        void *fun = MIR_gen (ctx, func);
+        ret = c02_call_saving (fun, (int64_t) (intptr_t) block);
       }
       print_obs (eng_names[e], ret);
     }
